@@ -106,5 +106,6 @@ Record tables := {
   t_deps : list (N * N * traversal);                   (* class, defining class, traversal (MRO-resolved) *)
   t_reduce : list (N * N * list field);                (* class, defining class, fields of the tuple after type(self) *)
   t_cinit : list (N * list (pystr * bool));            (* class: parameters of the __cinit__ chain (name, has default) *)
-  t_cinit_assign : list (N * list (field * nat * bool))(* class: field := parameter index; bool = tuple-normalised *)
+  t_cinit_assign : list (N * list (field * nat * bool));(* class: field := parameter index; bool = tuple-normalised *)
+  t_special_names : list pystr                         (* special_methods: the attribute names __getattr__ refuses to defer *)
 }.
